@@ -37,9 +37,18 @@ ScoreSet(ver, o, m) ==
     [] ver = "2.0" /\ m = "temporal" -> TemporalSet2(o)
     [] ver = "2.0" /\ m = "environmental" -> EnvSet2(o)
 
+(* a logged receiver that is not an object of the specification at all (some Get of the real object *)
+(* returned a string that is not a value of the metric): nothing can be computed from it           *)
+BadObj(ver, s) ==
+  /\ s # <<>>
+  /\ \/ Len(s) # Len(Order(ver))
+     \/ \E k \in 1..Len(s) : s[k] \notin Values(ver, Order(ver)[k])
+
 (* why event e is not a behaviour of the specification ("" when it is) *)
 Why(e) ==
   CASE e.pan # "" -> "the call panicked"
+    [] e.op \in {"set", "get", "vector", "score", "nomen"} /\ BadObj(e.ver, e.before) ->
+         "receiver holds a value that is not a value of its metric"
     [] e.op = "parse" ->
          LET r == ParseResult(e.ver, e.b)
              wf == WF(e.ver, e.b)
